@@ -1,5 +1,138 @@
-import TcheranVerif.Model.Search
+import TcheranVerif.Proofs.PickerMain
+/-!
+# C10 — the staged move picker yields every generated move exactly once
+
+Model: `Model/Picker.lean` (`MovePicker::next`, block by block). The generator outputs, both scoring
+functions, the hash move, both killers and the counter move are parameters (`Env`), so the theorems
+hold for **every** content of the killer / counter / history tables, remembered moves that are not legal
+here included (they are simply never found by the scans).
+
+* `picker_perm` — with a hash move that is one of the generated moves, or none, the stream drained from a
+  fresh picker is a permutation of `captures ++ quiets`: nothing missing, nothing extra, nothing twice.
+* `loud_perm` — the captures-only picker yields a permutation of the capture list (captures and
+  queen promotions, as generated).
+* `drain_stable` — the stream does not depend on the fuel once it exceeds the measure: the model's loop
+  ends because `next` answered `None`, as the Rust `while let Some(..)` loop does.
+* `next_after_done` — at `Done` every further call answers `None` (the `unreachable!()` is unreachable).
+
+Hypothesis `EnvOk` (the two generated lists are duplicate-free and disjoint) is the C01 statement about
+the generator; the `picker` stream checks it on every sampled position together with the tie of
+`Env` to the real generator and scoring.
+-/
 namespace Tcheran.Props.C10
-theorem placeholder : True := trivial
+open Tcheran Tcheran.Picker
+
+theorem inv_new (env : Env) (hash : Option Move)
+    (hh : ∀ h, hash = some h → h ∈ env.captures ∨ h ∈ env.quiets) : Inv env (Picker.new hash) :=
+  { inj := fun i j hi _ _ => by simp [Picker.new] at hi
+    ssize := rfl
+    hashOk := fun h e => hh h e
+    loudHash := fun c => by simp [Picker.new] at c
+    loudStage := fun c => by simp [Picker.new] at c
+    pre := fun _ => ⟨rfl, rfl, rfl, rfl⟩
+    caps := fun c => by simp [Picker.new, afterCaps] at c
+    noQuietsYet := fun c => by simp [Picker.new, afterCaps] at c
+    loudBad := fun c => by simp [Picker.new] at c
+    good := fun c => by simp [Picker.new] at c
+    fbOk := fun fb c => by simp [Picker.new] at c
+    quiets := fun c => by simp [Picker.new, afterQuiets] at c
+    badIdx := fun c => by simp [Picker.new] at c
+    quietIdx := fun c => by simp [Picker.new] at c }
+
+theorem inv_newLoud (env : Env) : Inv env Picker.newLoud :=
+  { inj := fun i j hi _ _ => by simp [Picker.newLoud] at hi
+    ssize := rfl
+    hashOk := fun h e => by simp [Picker.newLoud] at e
+    loudHash := fun _ => rfl
+    loudStage := fun _ => ⟨rfl, by simp [Picker.newLoud]⟩
+    pre := fun _ => ⟨rfl, rfl, rfl, rfl⟩
+    caps := fun c => by simp [Picker.newLoud, afterCaps] at c
+    noQuietsYet := fun c => by simp [Picker.newLoud, afterCaps] at c
+    loudBad := fun c => by simp [Picker.newLoud] at c
+    good := fun c => by simp [Picker.newLoud] at c
+    fbOk := fun fb c => by simp [Picker.newLoud] at c
+    quiets := fun c => by simp [Picker.newLoud, afterQuiets] at c
+    badIdx := fun c => by simp [Picker.newLoud] at c
+    quietIdx := fun c => by simp [Picker.newLoud] at c }
+
+/-- **C10, full picker**: every generated move exactly once, for every killer / counter / history content -/
+theorem picker_perm (env : Env) (hE : EnvOk env) (hash : Option Move)
+    (hh : ∀ h, hash = some h → h ∈ env.captures ∨ h ∈ env.quiets)
+    (fuel : Nat) (hf : 10 * bound env < fuel) :
+    (drain env fuel (Picker.new hash)).Perm (env.captures ++ env.quiets) := by
+  have hmu : mu env (Picker.new hash) < fuel := by
+    unfold mu work; simp only [Picker.new, rank]; omega
+  obtain ⟨d, mem⟩ := drain_spec env hE fuel (Picker.new hash) (inv_new env hash hh) hmu
+  have d2 : (env.captures ++ env.quiets).Nodup :=
+    List.nodup_append.2 ⟨hE.capsNodup, hE.quietsNodup, fun a ha b hb e => hE.disjoint a ha (e ▸ hb)⟩
+  refine (List.perm_ext_iff_of_nodup d d2).2 (fun x => ?_)
+  rw [mem x, List.mem_append]
+  unfold InP qs
+  simp [Picker.new]
+
+/-- **C10, captures-only picker**: every generated capture / queen promotion exactly once -/
+theorem loud_perm (env : Env) (hE : EnvOk env) (fuel : Nat) (hf : 10 * bound env < fuel) :
+    (drain env fuel Picker.newLoud).Perm env.captures := by
+  have hmu : mu env Picker.newLoud < fuel := by
+    unfold mu work; simp only [Picker.newLoud, rank]; omega
+  obtain ⟨d, mem⟩ := drain_spec env hE fuel Picker.newLoud (inv_newLoud env) hmu
+  refine (List.perm_ext_iff_of_nodup d hE.capsNodup).2 (fun x => ?_)
+  rw [mem x]
+  unfold InP qs
+  simp [Picker.newLoud]
+
+/-- the stream does not depend on the fuel once it exceeds the measure -/
+theorem drain_stable (env : Env) (hE : EnvOk env) : ∀ (f1 f2 : Nat) (st : State), Inv env st →
+    mu env st < f1 → mu env st < f2 → drain env f1 st = drain env f2 st := by
+  intro f1
+  induction f1 with
+  | zero => intro _ _ _ h; omega
+  | succ n ih =>
+    intro f2 st hinv h1 h2
+    cases f2 with
+    | zero => omega
+    | succ m =>
+      have hn := next_ok env hE st hinv
+      unfold drain
+      generalize next env st = p at hn
+      obtain ⟨o, st'⟩ := p
+      cases o with
+      | none => rfl
+      | some mv =>
+        simp only at hn ⊢
+        have := hn.mu_lt
+        rw [ih m st' hn.inv (by omega) (by omega)]
+
+/-- at `Done` every further call answers `None` -/
+theorem next_after_done (env : Env) (st : State) (h : st.stage = .done) : next env st = (none, st) := by
+  have e1 : sBest st = .ok st := by unfold sBest; rw [if_neg (by rw [h]; simp)]
+  have e2 : sGenCaptures env st = .ok st := by unfold sGenCaptures; rw [if_neg (by rw [h]; simp)]
+  have e3 : sGoodCaptures st = .ok st := by unfold sGoodCaptures; rw [if_neg (by rw [h]; simp)]
+  have e4 : sGenQuiets env st = .ok st := by unfold sGenQuiets; rw [if_neg (by rw [h]; simp)]
+  have e5 : sKiller1 env st = .ok st := by unfold sKiller1; rw [if_neg (by rw [h]; simp)]
+  have e6 : sKiller2 env st = .ok st := by unfold sKiller2; rw [if_neg (by rw [h]; simp)]
+  have e7 : sCounter env st = .ok st := by unfold sCounter; rw [if_neg (by rw [h]; simp)]
+  have e8 : sBadCaptures st = .ok st := by unfold sBadCaptures; rw [if_neg (by rw [h]; simp)]
+  have e9 : sScoreQuiets env st = .ok st := by unfold sScoreQuiets; rw [if_neg (by rw [h]; simp)]
+  have e10 : sQuiets st = .ok st := by unfold sQuiets; rw [if_neg (by rw [h]; simp)]
+  unfold next
+  simp only [e1, e2, e3, e4, e5, e6, e7, e8, e9, e10, bind, Except.bind]
+
+/-- non-vacuity: a concrete environment with a hash move that is a bad capture, a killer equal to the
+counter move and a killer that is not a generated move meets the hypotheses -/
+def demoEnv : Env :=
+  { captures := [⟨12, 21, .capture⟩, ⟨12, 19, .capture⟩], quiets := [⟨12, 20, .quiet⟩, ⟨12, 28, .quiet⟩, ⟨6, 22, .quiet⟩],
+    scoreTactical := fun m => if m.dst.val = 21 then -5 else goodCaptureScore + 7, scoreQuiet := fun m => m.dst.val,
+    killer1 := some ⟨6, 22, .quiet⟩, killer2 := some ⟨1, 18, .quiet⟩, counter := some ⟨6, 22, .quiet⟩ }
+
+example : EnvOk demoEnv := ⟨by simp [demoEnv], by simp [demoEnv], by simp [demoEnv]⟩
+example : (⟨12, 21, .capture⟩ : Move) ∈ demoEnv.captures ∨ (⟨12, 21, .capture⟩ : Move) ∈ demoEnv.quiets := by
+  simp [demoEnv]
+
 end Tcheran.Props.C10
-#print axioms Tcheran.Props.C10.placeholder
+#print axioms Tcheran.Props.C10.inv_new
+#print axioms Tcheran.Props.C10.inv_newLoud
+#print axioms Tcheran.Props.C10.picker_perm
+#print axioms Tcheran.Props.C10.loud_perm
+#print axioms Tcheran.Props.C10.drain_stable
+#print axioms Tcheran.Props.C10.next_after_done
